@@ -246,6 +246,28 @@ def run_batch(machine, seed, tier, nruns, budget_s, nproc, run_timeout=120,
     return results, errors, time.time() - t0
 
 
+def _fresh_tqdm_locks():
+    """tqdm guards its bars with one multiprocessing lock that every forked
+    process shares; a process that ends while a (monitor) thread holds it
+    blocks every other process for ever.  No monitor threads, and a lock of
+    its own for every forked process."""
+    try:
+        import tqdm.std as ts
+        ts.tqdm.monitor_interval = 0
+        if 'mp_lock' in ts.TqdmDefaultWriteLock.__dict__:
+            del ts.TqdmDefaultWriteLock.mp_lock
+        stack = [ts.tqdm]
+        while stack:
+            c = stack.pop()
+            stack += c.__subclasses__()
+            if '_lock' in c.__dict__:
+                del c._lock
+            if 'monitor_interval' in c.__dict__:
+                c.monitor_interval = 0
+    except Exception:      # noqa
+        pass
+
+
 def run_isolated(fn, timeout=300):
     """Run fn() in a forked child; returns ('ok', json-able result) or
     ('crash', how).  Used wherever the code under test could take the
@@ -256,6 +278,7 @@ def run_isolated(fn, timeout=300):
         os.close(r)
         code = 0
         try:
+            _fresh_tqdm_locks()
             faulthandler.dump_traceback_later(timeout, exit=True)
             out = fn()
             with os.fdopen(w, 'w') as f:
